@@ -9,7 +9,7 @@ use std::collections::BTreeSet;
 // the last six: punctuation that other platforms treat as separators or wildcards, and letters whose lower-case form has another UTF-8 length
 // the last row: double extensions and prefixes that project tools give a meaning (scripts, mocks, interfaces, tests by another convention)
 const ELIGIBLE_NAMES: [&str; 30] = [
-    "Deploy.s.sol", "Deploy.S.sol", "Mock.m.sol", "Types.d.sol", "Vault.test.sol", "Vault.spec.sol", "Test.sol", "test_Vault.sol", "IVault.sol", "Vault.script.sol", "Vault.tsol.sol", "t.s.sol", "a.t.b.sol", "Vault.sol.t.solx.sol",
+    "Deploy.s.sol", "Deploy.S.sol", "Mock.m.sol", "Types.d.sol", "Vault.test.sol", "Vault.spec.sol", "Test.sol", "test_Vault.sol", "IVault.sol", "Vault.script.sol", "Vault.tsol.sol", "t.s.sol", "a.t.b.sol", "Vault.solx.sol",
     "A.sol", ".sol", "a b.sol", "合约.sol", "x.sol.sol", "T.SOL.sol", "UPPER.sol", "a.tt.sol", "at.sol", "t.sol", "tokens\\ERC20.sol", "C:Vault.sol", "a*b?.sol", "\u{130}.sol",
     "\u{212A}elvin.sol", "\u{1E9E}t.sol",
 ];
